@@ -436,7 +436,7 @@ open CC.Look
 
 /-- **every reachable world is coherent** -/
 theorem reachable_coh (w : World) (h : Reachable w) : w.Coh := by
-  obtain ⟨n, ops, rfl⟩ := h
+  obtain ⟨n, k, ops, rfl⟩ := h
   have hstep : ∀ (ops : List Op) (w0 : World), Reachable w0 → w0.Coh → (ops.foldl World.step w0).Coh := by
     intro ops
     induction ops with
@@ -444,16 +444,16 @@ theorem reachable_coh (w : World) (h : Reachable w) : w.Coh := by
     | cons op rest ih =>
       intro w0 hr h0
       have hr' : Reachable (w0.step op) := by
-        obtain ⟨n0, ops0, rfl⟩ := hr
-        exact ⟨n0, ops0 ++ [op], by simp [List.foldl_append]⟩
+        obtain ⟨n0, k0, ops0, rfl⟩ := hr
+        exact ⟨n0, k0, ops0 ++ [op], by simp [List.foldl_append]⟩
       exact ih _ hr' (step_coh w0 op h0 (reachable_inv w0 hr) (reachable_struct_wf w0 hr) (reachable_nonEmpty w0 hr))
-  apply hstep ops _ ⟨n, [], rfl⟩
+  apply hstep ops _ ⟨n, k, [], rfl⟩
   -- the initial world: `setup` followed by `update_msk` on the empty structure
-  have h0 : (⟨(setup n).1, (setup n).2⟩ : World).Coh := by
+  have h0 : (⟨(setup n k).1, (setup n k).2⟩ : World).Coh := by
     refine ⟨?_, ?_, ?_⟩ <;> intro r c hl <;> simp [setup] at hl
-  have hinv0 : (⟨(setup n).1, (setup n).2⟩ : World).msk.Inv (setup n).2 := setup_inv n
-  have hne0 : (setup n).1.secrets.NonEmpty := by intro r c hm; simp [setup] at hm
-  have := step_coh ⟨(setup n).1, (setup n).2⟩ .update h0 hinv0 (by simp only [setup]; exact empty_wf) hne0
+  have hinv0 : (⟨(setup n k).1, (setup n k).2⟩ : World).msk.Inv (setup n k).2 := setup_inv n k
+  have hne0 : (setup n k).1.secrets.NonEmpty := by intro r c hm; simp [setup] at hm
+  have := step_coh ⟨(setup n k).1, (setup n k).2⟩ .update h0 hinv0 (by simp only [setup]; exact empty_wf) hne0
   exact this
 
 end CC
